@@ -81,8 +81,8 @@ def cases(rng, tier):
     out = []
     fx = L.fixture_bytes()
     games = L.game_scripts()
-    nrand = dict(quick=500, thorough=12000, search=6000)[tier]
-    npairs = dict(quick=400, thorough=5000, search=2500)[tier]
+    nrand = dict(quick=1800, thorough=15000, search=6000)[tier]
+    npairs = dict(quick=800, thorough=8000, search=2500)[tier]
     progs_other = PROGS if tier != "quick" else [p for p in PROGS if len(p.split(",")) <= 3] + rng.sample([p for p in PROGS if len(p.split(",")) == 4], 8)
     # 1. every history on every fixture, expected = the repo's own expected files
     for stem, l, n, el, ej in fx:
